@@ -1,9 +1,9 @@
 import UralModel.Py.Str
 /-!
-# `urllib.parse.urlsplit` / `urlunsplit` / `urljoin` prelude (CPython 3.12.1)
+# `urllib.parse.urlsplit` / `urlunsplit20` / `urljoin` prelude (CPython 3.12.1)
 
 Hand model written from `Lib/urllib/parse.py` of the interpreter the harness runs
-(`urlsplit` lines 437-507, `_splitparams`, `_splitnetloc`, `urlunsplit`, `urljoin` lines
+(`urlsplit` lines 437-507, `_splitparams`, `_splitnetloc`, `urlunsplit20`, `urljoin` lines
 529-604).  `none` stands for the `ValueError` that `urlsplit` raises on a malformed
 authority.  Modelled, **not verified**, and deliberately partial:
 
@@ -31,7 +31,7 @@ def usesRelative : List String :=
   ["", "ftp", "http", "gopher", "nntp", "imap", "wais", "file", "https", "shttp", "mms",
    "prospero", "rtsp", "rtsps", "rtspu", "sftp", "svn", "svn+ssh", "ws", "wss"]
 
-def usesNetloc : List String :=
+def usesNetloc20 : List String :=
   ["", "ftp", "http", "gopher", "nntp", "telnet", "imap", "wais", "file", "mms", "https",
    "shttp", "snews", "prospero", "rtsp", "rtsps", "rtspu", "rsync", "svn", "svn+ssh", "sftp",
    "nfs", "git", "git+ssh", "ws", "wss", "itms-services"]
@@ -120,10 +120,10 @@ def urlsplit (url0 : Str) (dflt : Str := []) : Option SplitResult :=
     let q := splitFirst fr.1 '?'
     some ⟨sc.1, nl.1, q.1, q.2.getD [], fr.2.getD []⟩
 
-/-- `urlunsplit((scheme, netloc, url, query, fragment))` -/
-def urlunsplit (scheme netloc url query fragment : Str) : Str :=
+/-- `urlunsplit20((scheme, netloc, url, query, fragment))` -/
+def urlunsplit20 (scheme netloc url query fragment : Str) : Str :=
   let url :=
-    if netloc ≠ [] || (scheme ≠ [] && inTable usesNetloc scheme && !startsWith url ['/', '/']) then
+    if netloc ≠ [] || (scheme ≠ [] && inTable usesNetloc20 scheme && !startsWith url ['/', '/']) then
       ['/', '/'] ++ netloc ++ (if url ≠ [] && !startsWith url ['/'] then '/' :: url else url)
     else url
   let url := if scheme ≠ [] then scheme ++ ':' :: url else url
@@ -148,7 +148,7 @@ def pathParams (scheme path : Str) : Str × Str :=
 
 /-- `urlunparse` -/
 def urlunparse (scheme netloc path params query fragment : Str) : Str :=
-  urlunsplit scheme netloc (if params ≠ [] then path ++ ';' :: params else path) query fragment
+  urlunsplit20 scheme netloc (if params ≠ [] then path ++ ';' :: params else path) query fragment
 
 /-- the dot-segment loop of `urljoin` -/
 def resolveSegments (segments : List Str) : List Str :=
@@ -181,10 +181,10 @@ def urljoin (base url : Str) : Option Str :=
         let (bpath, bparams) := pathParams b.scheme b.path
         let (path, params) := pathParams u.scheme u.path
         if u.scheme ≠ b.scheme || !inTable usesRelative u.scheme then some url
-        else if inTable usesNetloc u.scheme && u.netloc ≠ [] then
+        else if inTable usesNetloc20 u.scheme && u.netloc ≠ [] then
           some (urlunparse u.scheme u.netloc path params u.query u.fragment)
         else
-          let netloc := if inTable usesNetloc u.scheme then b.netloc else u.netloc
+          let netloc := if inTable usesNetloc20 u.scheme then b.netloc else u.netloc
           if path = [] && params = [] then
             some (urlunparse u.scheme netloc bpath bparams
               (if u.query = [] then b.query else u.query) u.fragment)
